@@ -9,6 +9,19 @@ for l in open('/verif/properties.jsonl'):
     p = json.loads(l)
     if p['id'] == pid:
         break
+import glob
+known = []
+for d in sorted(glob.glob('/verif/benign/%s-b*' % pid)):
+    try:
+        t = ' '.join(open(d + '/notes.md').read().split())
+    except OSError:
+        continue
+    known.append('  - ' + t[:320])
+KNOWN = ''
+if known:
+    KNOWN = """
+Clean-ups of the following kinds have ALREADY been collected for this property; do not repeat them or close variants - pick other functions of the mechanism, other kinds of restructuring (be inventive: split a function in two, merge two functions, turn a method into a property or a module-level function, replace a flag variable by control flow or the reverse, change a data structure's spelling (dict <-> attribute, tuple <-> small class), swap inlineCallbacks and explicit callbacks, reorder branches, change loop forms, introduce or remove intermediate variables, rename private names), and larger ones (20-80 changed lines) as long as they stay behaviour-preserving:
+""" + '\n'.join(known) + '\n'
 print('''You are helping to evaluate a verification tool for an open-source Python project (meejah/txtorcon, a Twisted client for Tor's control protocol). The tool is supposed to stay SILENT on code changes that keep a given property true. Your job is to write realistic, behaviour-preserving clean-up changes ("refactorings") of the code that implements the property, so that we can see whether the tool raises false alarms.
 
 Your scratch copy of the repository is the git worktree at {root}/{id} . Work ONLY there and in {out}/{id}/ . Do not read, list or modify anything under /repo or /verif (those are off limits), do not commit anything, and do NOT use `git stash` (the stash is shared with other people's worktrees): to move between the clean and a changed tree use `git diff > file`, `git apply file`, `git apply -R file` or `git checkout -- .`.
@@ -26,6 +39,7 @@ Task: produce THREE different, independent source changes to that mechanism code
   (b) PRESERVES the behaviour the property talks about for EVERY input / history / schedule / fault in its quantifier - not just for the tests. Be strict with yourself: if you cannot argue equivalence for every case the property quantifies over, pick a different change. Do not change public API names or signatures.
   (c) still imports and still passes the ENTIRE existing test suite unchanged (run it: `cd {root}/{id} && /venv/bin/python -m pytest -q -p no:cacheprovider --timeout=900 test/` ; about 677-678 tests pass on the unmodified tree and 3 fail for unrelated reasons (root user) - the same set must pass after your change),
   (d) touches between roughly 5 and 60 lines, inside the mechanism of the property (a change somewhere unrelated tells us nothing).
+{known}
 Make the three changes different in kind (e.g. one helper extraction, one idiom replacement, one re-ordering/renaming) and, if the mechanism spans several functions, in different functions.
 
 For each change N in (1, 2, 3) write into {out}/{id}/N/ :
@@ -33,4 +47,4 @@ For each change N in (1, 2, 3) write into {out}/{id}/N/ :
   - notes.md : 5-12 lines: what was changed, and the argument why every behaviour the property quantifies over is unchanged (mention the cases you considered: error paths, re-entrancy, ordering, empty / unusual inputs), plus the test-suite result you observed with the change applied.
 
 Finish by leaving the worktree clean (`git -C {root}/{id} checkout -- .`, and delete untracked files your test runs created). Reply with a short summary of the three changes (file, function, one sentence each).'''.format(
-    id=pid, root=root, out=out, title=p['title'], statement=p['statement'], quant=p['quantifier']['text']))
+    id=pid, root=root, out=out, known=KNOWN, title=p['title'], statement=p['statement'], quant=p['quantifier']['text']))
